@@ -265,10 +265,12 @@ void backend () {
    */
   call_heart_beat ();
 
+  /* Recovery point of uncaught errors in the loop below. The console user is connected only on the first
+   * pass: after an error, init_console_user(0) must not run again (the console user already exists, so
+   * new_interactive() refuses and master_ob->interactive is NULL). */
   if (setjmp (econ.context))
     restore_context (&econ);
-
-  if (MAIN_OPTION(console_mode))
+  else if (MAIN_OPTION(console_mode))
     init_console_user(0);
 
   while (1)
